@@ -90,7 +90,10 @@ site('init.c', 'parseinit', 'assert', 't->prop&PROPSCALAR', J('internal', 'remai
 site('init.c', 'parseinit', 'error', 'array of unknown size has empty initializer',
      T('decl', 'int a_[] = {};'), T('decl', 'struct { int n; char a_[]; } x_ = { 1, {} };', skip=('*',), note='reaches subobj first'))
 site('init.c', 'parseinit', 'error', 'cannot initialize array with string literal of different width',
-     T('decl', 'int a_[] = "abc";'), T('decl', 'char a_[] = L"abc";'), T('decl', 'unsigned short a_[4] = U"abc";'), T('decl', 'struct { short s_[4]; } x_ = { "ab" };'))
+     T('decl', 'int a_[] = "abc";'), T('decl', 'char a_[] = L"abc";'), T('decl', 'unsigned short a_[4] = U"abc";'), T('decl', 'struct { short s_[4]; } x_ = { "ab" };'),
+     # same width, incompatible element type
+     T('decl', 'int a_[] = U"abc";'), T('decl', 'short a_[] = u"xy";'), T('decl', '_Bool a_[4] = "abc";', gcc=True), T('decl', 'long a_[2] = L"a";'),
+     T('decl', 'struct { unsigned u_[3]; } x_ = { L"ab" };'))
 site('init.c', 'parseinit', 'error', "expected ',' or '}' after initializer",
      T('decl', 'int a_[2] = { 1 2 };'), T('decl', 'int a_[2] = { 1; };'), T('decl', 'struct s_ x_ = { 1, { 1 } 2 };', pre=PI))
 site('init.c', 'parseinit', 'error', 'initializer for array, struct or union must be enclosed in braces',
